@@ -113,6 +113,93 @@ def detector_stages(ctx, res: Result, det: ClassInfo) -> None:
     res.add(bool(ini) and src(ini[0].value) in ("list(in_state)", "in_state.s", "copy(in_state.s)"), "I-detector-copy", "output", go.site(), go.qualname, "works on a copy of the sampled state", "detector works on the sampled state object itself", construct=src(ini[0]) if ini else "")
 
 
+def strip_derivation(ctx, fi: FuncInfo, expr, D: str, depth=0) -> str:
+    """How does `expr` derive from the full-space value named D?
+    'STRIP' herald modes removed, 'SAME' the value itself, 'MIX' stripped when heralds exist else the value itself,
+    'OTHER' derives from something else, 'UNKNOWN' not recognised."""
+    if depth > 4:
+        return "UNKNOWN"
+    cls = fi.cls
+    e = expr
+    if isinstance(e, ast.Name):
+        if e.id == D:
+            return "SAME"
+        defs = [a.value for a in walk_no_nested(fi.node) if isinstance(a, ast.Assign) and len(a.targets) == 1 and src(a.targets[0]) == e.id]
+        if not defs:
+            return "OTHER"
+        got = {strip_derivation(ctx, fi, d, D, depth + 1) for d in defs}
+        return _combine(got)
+    if isinstance(e, ast.Call):
+        f = src(e.func)
+        if f.split(".")[-1] == "remove_heralds_from_state" and e.args:
+            return "STRIP" if src(e.args[0]) == D else "OTHER"
+        if f in ("State", "list", "tuple", "copy") and len(e.args) == 1:
+            return strip_derivation(ctx, fi, e.args[0], D, depth + 1)
+        if isinstance(e.func, ast.Attribute) and src(e.func.value) == "self" and cls is not None and e.func.attr in cls.methods and e.args:
+            h = cls.methods[e.func.attr]
+            params = h.params()[1:]
+            if not params or src(e.args[0]) != D:
+                return "UNKNOWN"
+            rets = [r.value for r in walk_no_nested(h.node) if isinstance(r, ast.Return) and r.value is not None]
+            if not rets:
+                return "UNKNOWN"
+            return _combine({strip_derivation(ctx, h, r, params[0], depth + 1) for r in rets})
+        return "UNKNOWN"
+    if isinstance(e, ast.Subscript) and isinstance(e.value, ast.Attribute) and src(e.value.value) == "self" and cls is not None:
+        if src(e.slice) != D:
+            return "OTHER"
+        fld = e.value.attr
+        stores = []
+        for g in cls.all_funcs():
+            for a in walk_no_nested(g.node):
+                if isinstance(a, ast.Assign) and isinstance(a.targets[0], ast.Subscript) and isinstance(a.targets[0].value, ast.Attribute) and src(a.targets[0].value.value) == "self" and a.targets[0].value.attr == fld and isinstance(a.targets[0].slice, ast.Name):
+                    stores.append((g, a))
+            for a in walk_no_nested(g.node):
+                # table (re)built by a comprehension: {s: State(remove_heralds_from_state(s, ...)) for s in ...}
+                if isinstance(a, ast.Assign) and isinstance(a.targets[0], ast.Attribute) and src(a.targets[0].value) == "self" and a.targets[0].attr == fld and isinstance(a.value, ast.DictComp) and isinstance(a.value.key, ast.Name):
+                    got = strip_derivation(ctx, g, a.value.value, a.value.key.id, depth + 1)
+                    stores.append((g, None, got))
+        if not stores:
+            return "UNKNOWN"
+        got = set()
+        for st_ in stores:
+            if len(st_) == 3:
+                got.add(st_[2])
+            else:
+                g, a = st_
+                got.add(strip_derivation(ctx, g, a.value, a.targets[0].slice.id, depth + 1))
+        return _combine(got)
+    if isinstance(e, ast.IfExp):
+        return _combine({strip_derivation(ctx, fi, e.body, D, depth + 1), strip_derivation(ctx, fi, e.orelse, D, depth + 1)})
+    return "UNKNOWN"
+
+
+def _combine(got: set) -> str:
+    if "UNKNOWN" in got:
+        return "UNKNOWN"
+    if "OTHER" in got:
+        return "OTHER"
+    if got == {"STRIP"}:
+        return "STRIP"
+    if got == {"SAME"}:
+        return "SAME"
+    if got <= {"STRIP", "SAME", "MIX"}:
+        return "MIX"
+    return "UNKNOWN"
+
+
+def _strip_verdict(ctx, res, fi, expr, D, rule, inst, site, what):
+    d = strip_derivation(ctx, fi, expr, D)
+    if d in ("STRIP", "MIX"):
+        res.ok(rule, inst, site, fi.qualname, f"{what} is `{D}` with the herald modes removed ({d})")
+    elif d == "SAME":
+        res.bad(rule, inst, site, fi.qualname, f"{what} is the full-mode value `{D}` itself on every path: heralded (ancilla) modes are never removed", construct=src(expr)[:120])
+    elif d == "OTHER":
+        res.bad(rule, inst, site, fi.qualname, f"{what} does not derive from `{D}` (the detected / thresholded state that was tested against the heralds)", construct=src(expr)[:120])
+    else:
+        res.frozen(False, rule, inst, site, fi.qualname, "", f"derivation of {what} from `{D}` not recognised", construct=src(expr)[:120])
+
+
 def _find_loop_over(fi: FuncInfo, name: str):
     for l in walk_no_nested(fi.node):
         if isinstance(l, ast.For) and src(l.iter) == name:
@@ -152,23 +239,9 @@ def sample_n_inputs_pipeline(ctx, res: Result, fi: FuncInfo) -> None:
         raise AnalysisError(f"{fi.qualname}: accepted-sample append not found")
     hs = src(apps[0].args[0])
     # hs is the herald-removed detector output
-    defs = [a for s in acc for a in ast.walk(s) if isinstance(a, ast.Assign) and src(a.targets[0]) == hs]
-    okd = bool(defs)
-    for d in defs:
-        v = src(d.value)
-        if v == D:
-            continue  # no-herald branch
-        if v.startswith("self.") and v.endswith(f"[{D}]"):
-            continue
-        if "remove_heralds_from_state" in v and f"({D}," in v.replace(" ", "").replace("remove_heralds_from_state", ""):
-            continue
-        okd = False
-    memo = [a for s in acc for a in ast.walk(s) if isinstance(a, ast.Assign) and isinstance(a.targets[0], ast.Subscript) and src(a.targets[0].slice) == D]
-    okm = all("remove_heralds_from_state" in src(m.value) and src(m.value).replace(" ", "").find(f"remove_heralds_from_state({D},herald_modes)") >= 0 for m in memo)
-    res.add(okd and okm, "I-pipeline-order", inst + ":herald-removal", fi.site(acc[0]), fi.qualname, f"accepted value `{hs}` is the detector output with herald modes removed",
-            f"the accepted value `{hs}` is not derived from the detector output `{D}` by removing the herald modes", construct=";".join(src(d) for d in defs)[:200])
+    _strip_verdict(ctx, res, fi, apps[0].args[0], D, "I-pipeline-order", inst + ":herald-removal", fi.site(apps[0]), "the accepted value")
     hm = [a for a in walk_no_nested(fi.node) if isinstance(a, ast.Assign) and src(a.targets[0]) == "herald_modes"]
-    res.add(bool(hm) and src(hm[0].value).replace(" ", "") in ("list(heralds.keys())", "list(heralds)", "heralds.keys()"), "I-pipeline-order", inst + ":herald-modes", fi.site(), fi.qualname, "all herald modes are removed", "not all output herald modes are removed", construct=src(hm[0]) if hm else "")
+    res.frozen(bool(hm) and src(hm[0].value).replace(" ", "") in ("list(heralds.keys())", "list(heralds)", "heralds.keys()", "sorted(heralds)", "sorted(heralds.keys())"), "I-pipeline-order", inst + ":herald-modes", fi.site(), fi.qualname, "all herald modes are removed", "not all output herald modes are removed", construct=src(hm[0]) if hm else "")
     hd = [a for a in walk_no_nested(fi.node) if isinstance(a, ast.Assign) and src(a.targets[0]) == "heralds"]
     res.add(bool(hd) and src(hd[0].value).replace("'", '"') == 'self.circuit.heralds["output"]', "I-pipeline-order", inst + ":output-heralds", fi.site(), fi.qualname, "samples are tested against the circuit's *output* heralds", "herald test does not use the circuit's output heralds", construct=src(hd[0]) if hd else "")
     # filter on the same value
@@ -214,17 +287,17 @@ def sample_n_outputs_pipeline(ctx, res: Result, fi: FuncInfo) -> None:
     if not stores:
         raise AnalysisError(f"{fi.qualname}: accumulation into the converted distribution not found")
     key = src((stores[0].targets[0] if isinstance(stores[0], ast.Assign) else stores[0].target).slice)
-    defs = [a for st_ in acc for a in ast.walk(st_) if isinstance(a, ast.Assign) and src(a.targets[0]) == key]
-    okd = bool(defs) and all(src(d.value) == s or (src(d.value).startswith("self.") and src(d.value).endswith(f"[{s}]")) for d in defs)
-    memo = [a for st_ in acc for a in ast.walk(st_) if isinstance(a, ast.Assign) and isinstance(a.targets[0], ast.Subscript) and src(a.targets[0].slice) == s and "new_dist" not in src(a.targets[0])]
-    okm = all(src(m.value).replace(" ", "").find(f"remove_heralds_from_state({s},herald_modes)") >= 0 for m in memo)
-    res.add(okd and okm, "I-pipeline-order", inst + ":herald-removal", fi.site(acc[0]), fi.qualname, f"kept key `{key}` is the output with herald modes removed", f"kept key `{key}` is not the herald-removed output", construct=";".join(src(d) for d in defs)[:160])
+    _strip_verdict(ctx, res, fi, ast.Name(id=key, ctx=ast.Load()) if key.isidentifier() else (stores[0].targets[0] if isinstance(stores[0], ast.Assign) else stores[0].target).slice, s, "I-pipeline-order", inst + ":herald-removal", fi.site(acc[0]), f"the kept key `{key}`")
     facts = facts_at(fi.node, stores[0], Normaliser()) or []
     f1 = frozenset({Lit("truthy", f"post_select.validate({key})")})
     f2 = frozenset({canon(">=", f"{key}.n_photons", "min_detection")})
     res.add(f1 in facts, "I-filter-post-selection", inst, fi.site(stores[0]), fi.qualname, "only outputs accepted by the post-selection are kept", "post-selection is not evaluated on the kept (visible) state", construct=src(stores[0]))
     res.add(f2 in facts, "E-min-detection", inst, fi.site(stores[0]), fi.qualname, "only outputs with n_photons >= min_detection are kept", "minimum-detection filter is not `n_photons >= min_detection` on the kept state", construct=src(stores[0]))
-    vals = {src(a.value) for a in stores}
+    def _w(a):
+        v = src(a.value).replace(" ", "")
+        g = f"new_dist.get({key},0)"
+        return p if v in (p, f"{g}+{p}", f"{p}+{g}") else v
+    vals = {_w(a) for a in stores}
     res.add(vals == {p}, "I-pipeline-order", inst + ":weights", fi.site(stores[0]), fi.qualname, "kept outputs carry their own probability", f"weights stored are {sorted(vals)}", construct=str(sorted(vals)))
     # renormalise, draw exactly N, nothing filtered afterwards
     ch = [c for c in walk_no_nested(fi.node) if isinstance(c, ast.Call) and src(c.func).endswith(".choice")]
@@ -249,6 +322,28 @@ def _assign_target_of(ctx, fi, call):
     return None
 
 
+def _guard_nodes(ctx, fi: FuncInfo, cfg, pred):
+    """CFG nodes of fi that enforce a refusal: a raising `if` whose test satisfies pred, or a call to a
+    self-method whose body contains such a raising `if` (validation moved into a helper)."""
+    from ..cfg import own_exprs
+
+    out = []
+    for n in cfg.nodes:
+        if n.kind == "test" and isinstance(n.ast, ast.If) and pred(src(n.ast.test).replace(" ", "")) and any(isinstance(b, ast.Raise) for b in ast.walk(n.ast) if b in n.ast.body or any(b in x.body for x in n.ast.body if isinstance(x, ast.If))):
+            out.append(n)
+        elif n.ast is not None and n.kind == "stmt" and fi.cls is not None:
+            for e in own_exprs(n):
+                for c in ast.walk(e):
+                    if isinstance(c, ast.Call) and isinstance(c.func, ast.Attribute) and src(c.func.value) == "self" and c.func.attr in fi.cls.methods:
+                        h = fi.cls.methods[c.func.attr]
+                        body_txt = "".join(src(x) for x in h.node.body if not (isinstance(x, ast.Expr) and isinstance(x.value, ast.Constant))).replace(" ", "")
+                        raises = any(isinstance(g, ast.Raise) for g in walk_no_nested(h.node))
+                        # a validation helper: its whole body is the guard (locals inlined by looking at the text of the body)
+                        if raises and pred(body_txt):
+                            out.append(n)
+    return out
+
+
 def refusals(ctx, res: Result, fi: FuncInfo, need_dark: bool) -> None:
     """Guards that must dominate the sampling work."""
     cfg = ctx.cfg(fi)
@@ -257,12 +352,12 @@ def refusals(ctx, res: Result, fi: FuncInfo, need_dark: bool) -> None:
 
     work = [n for n in cfg.nodes if n.ast is not None and any(isinstance(x, ast.Call) and src(x.func).endswith(".choice") for e in own_exprs(n) for x in ast.walk(e))]
     if need_dark:
-        g = [n for n in cfg.nodes if n.kind == "test" and isinstance(n.ast, ast.If) and src(n.ast.test).replace(" ", "") in ("self.detector.p_dark!=0", "self.detector.p_dark>0", "self.detector.p_dark") and any(isinstance(b, ast.Raise) for b in n.ast.body)]
+        g = _guard_nodes(ctx, fi, cfg, lambda t: t in ("self.detector.p_dark!=0", "self.detector.p_dark>0", "self.detector.p_dark", "self.detector.p_dark!=0.0", "notself.detector.p_dark==0"))
         good = bool(g) and bool(work) and all(any(x.id in dom[w.id] for x in g) for w in work)
         res.add(good, "D-dark-counts-refused", fi.qualname, fi.site(), fi.qualname, "a detector with dark counts is refused before any sample is drawn",
                 "sample_N_outputs no longer refuses detectors with dark counts (its distribution conversion cannot model them)", construct="p_dark guard")
     loops = [n for n in cfg.nodes if n.kind == "for" and src(n.ast.iter) in ("samples", "pdist.items()")]
-    hg = [n for n in cfg.nodes if n.kind == "test" and isinstance(n.ast, ast.If) and "max(heralds.values()) > 1" in src(n.ast.test) and "photon_counting" in src(n.ast.test) and any(isinstance(b, ast.Raise) for b in n.ast.body)]
+    hg = _guard_nodes(ctx, fi, cfg, lambda t: "max(" in t and ".values())>1" in t and "photon_counting" in t)
     good = bool(hg) and bool(loops) and all(any(x.id in dom[l.id] for x in hg) or _guarded_outer(cfg, dom, hg, l) for l in loops)
     res.add(good, "D-multi-photon-herald-refused", fi.qualname, fi.site(), fi.qualname, "a herald above one photon with threshold detectors is refused before sampling",
             "heralds above one photon with threshold detectors are no longer refused before the sampling loop", construct="herald guard")
